@@ -352,7 +352,10 @@ def run(pid, tier):
                         ck.violation(what, dict(ctx, cmp=c, min_code=st.get("min_code")))
                 elif cls in ("rescale", "dtype"):
                     uu = max(u, max(U.values()) if cls == "dtype" else u)
-                    if c["maxdiff"] > 4 * uu * c["refmax"] + 4 * max(ETA.values()):
+                    # the scale itself is rounded in the result dtype: when it is subnormal (float16 scales below 6.1e-5, e.g. absmax/57344)
+                    # its absolute error eta is multiplied by the code (up to qmax)
+                    qmax_out = {"qint8": 128.0, "qfloat8_e4m3fn": 448.0, "qfloat8_e5m2": 57344.0, "qfloat8": 448.0}.get(c.get("out_qtype"), 128.0)
+                    if c["maxdiff"] > 4 * uu * c["refmax"] + 4 * max(ETA.values()) + 2 * qmax_out * ETA.get(c.get("dtype"), max(ETA.values())):
                         ck.violation(f"{st['op']} rescales but differs from the float result by {c['maxdiff']:.3g} > rounding ({4 * uu * c['refmax']:.3g})", dict(ctx, cmp=c))
                 elif cls == "requant":
                     scale = c.get("out_scale_max")
